@@ -1,6 +1,6 @@
 (* C28 family: coerce_vars.  input: <schema dump (u)> <ast dump of the document> <compact json of the variables>
    output: ok <compact json, sorted keys> | err value | err bug ; then ` cls=<known class or ->` (the Coq
-   predicates known_default_not_coerced / known_edge_int evaluated on the case) *)
+   predicate known_default_not_coerced evaluated on the case) *)
 open Model
 
 let coerce_vars (line : string) : string =
@@ -12,8 +12,7 @@ let coerce_vars (line : string) : string =
     (match cv_first_operation d with
      | None -> "invalid-document"
      | Some vars ->
-       let cls = if known_default_not_coerced s vars then "default_not_coerced"
-                 else if known_edge_int values then "edge_int" else "-" in
+       let cls = if known_default_not_coerced s vars then "default_not_coerced" else "-" in
        let obs = match coerce_variable_values s vars values with
         | CvOk r ->
           (* the model's own result must conform (C28_conforms), checked here as a sanity oracle of the glue *)
